@@ -58,10 +58,17 @@ type c15Exp struct {
 	exported int
 	shuts    int
 	afterSD  int
+	names    map[string]int // name of every exported span (the sequences give every span its own name)
 }
 
 func (e *c15Exp) ExportSpans(_ context.Context, s []ReadOnlySpan) error {
 	e.exported += len(s)
+	if e.names == nil {
+		e.names = map[string]int{}
+	}
+	for _, sp := range s {
+		e.names[sp.Name()]++
+	}
 	if e.shuts > 0 {
 		e.afterSD += len(s)
 	}
@@ -108,6 +115,7 @@ func c15Seq(variant string, ops []string) func(x *sched.Exec) {
 		shutOK := false                // a provider Shutdown returned nil
 		shutTried := false             // a provider Shutdown was called (whatever it returned)
 		shutFailed := false            // a provider Shutdown returned an error (cut short by its context)
+		var lateSpans []string // spans started and ended after a Shutdown had returned nil: never exported, however late
 		totalSpans := 0
 		spansWhileP1 := 0 // spans ended while the stock processor p1 was a member and the provider live
 		procOf := func(id string) SpanProcessor {
@@ -157,8 +165,18 @@ func c15Seq(variant string, ops []string) func(x *sched.Exec) {
 					}
 					members = nm
 					unreg[id] = true
-				} else if len(l.ev) != before {
-					x.Fail("C15|unregister-of-non-member-has-effects", "UnregisterSpanProcessor of a processor that is not registered caused %v (%s)", l.ev[before:], where(i))
+				} else {
+					// a batch processor's timer-driven export of spans ended earlier may land at any
+					// time, this operation included: it is not an effect of the call
+					var caused []string
+					for _, e := range l.ev[before:] {
+						if !strings.HasPrefix(e, "E.Export") {
+							caused = append(caused, e)
+						}
+					}
+					if len(caused) != 0 {
+						x.Fail("C15|unregister-of-non-member-has-effects", "UnregisterSpanProcessor of a processor that is not registered caused %v (%s)", caused, where(i))
+					}
 				}
 			case "SpanOld", "SpanNew", "SpanReget":
 				tr := old
@@ -167,7 +185,8 @@ func c15Seq(variant string, ops []string) func(x *sched.Exec) {
 				} else if op == "SpanReget" {
 					tr = tp.Tracer("old")
 				}
-				_, sp := tr.Start(context.Background(), "s")
+				spanName := fmt.Sprintf("span of op %d", i)
+				_, sp := tr.Start(context.Background(), spanName)
 				if shutOK && op != "SpanOld" && sp.IsRecording() {
 					x.Fail("C15|tracer-handed-out-after-shutdown-is-not-a-no-op", "%s: a tracer obtained from the provider after Shutdown had returned nil starts recording spans (%s)", op, where(i))
 				}
@@ -181,9 +200,12 @@ func c15Seq(variant string, ops []string) func(x *sched.Exec) {
 					}
 				}
 				if shutOK {
-					if len(got) != 0 {
+					// judged on this very span: a batch processor whose Shutdown was cut short earlier may
+					// still be exporting older spans in the background while this one is started and ended
+					if len(recGot) != 0 || exp.names[spanName] != 0 {
 						x.Fail("C15|telemetry-after-shutdown", "a span started and ended after Shutdown had returned nil still reached %v (%s)", got, where(i))
 					}
+					lateSpans = append(lateSpans, spanName)
 					break
 				}
 				if shutTried {
@@ -287,6 +309,11 @@ func c15Seq(variant string, ops []string) func(x *sched.Exec) {
 			if exp.afterSD > 0 {
 				x.Fail("C15|export-after-exporter-shutdown", "exporter received spans after its Shutdown (%s)", where(i))
 			}
+			for _, n := range lateSpans {
+				if exp.names[n] != 0 {
+					x.Fail("C15|telemetry-after-shutdown", "%q, started and ended after Shutdown had returned nil, was exported later (%s)", n, where(i))
+				}
+			}
 			_, _ = s1, s2
 		}
 		// leave no goroutines behind
@@ -319,6 +346,10 @@ func c15RunSeq(r *enum.R, variant string, ops []string) {
 	}
 	for _, f := range x.Violations {
 		r.Fail(f.Key, cas, rp, "%s", f.Msg)
+	}
+	if r.Replaying() && len(x.Violations) > 0 {
+		y := sched.Run(nil, 4000, true, c15Seq(variant, ops))
+		fmt.Println("trace of the replayed sequence:\n  " + strings.Join(y.Trace, "\n  "))
 	}
 	r.Outcome(fmt.Sprintf("%s %v %s %d", variant, ops, x.Status, len(x.Violations)))
 }
@@ -384,6 +415,7 @@ func c15ConcBody(sc c15Conc, res *string) func(x *sched.Exec) {
 		}
 		pi := 0
 		var nilShutdowns int
+		cutShort := false // a Shutdown with an ended context returned an error
 		type out struct{ nilSD int }
 		outs := make([]out, len(sc.threads))
 		var wg vsync.WaitGroup
@@ -408,7 +440,9 @@ func c15ConcBody(sc c15Conc, res *string) func(x *sched.Exec) {
 					case "ShutdownC":
 						c, cancel := vctx.WithCancel(context.Background())
 						cancel()
-						_ = tp.Shutdown(c)
+						if tp.Shutdown(c) != nil {
+							cutShort = true
+						}
 					case "Unreg1":
 						tp.UnregisterSpanProcessor(p1)
 					case "Reg2":
@@ -448,7 +482,13 @@ func c15ConcBody(sc c15Conc, res *string) func(x *sched.Exec) {
 			x.Fail("C15|shut-down-more-than-once|concurrent", "shutdown counts p1=%d p2=%d", n1, p2.shuts)
 		}
 		if nilShutdowns > 0 && n1 != 1 {
-			x.Fail("C15|registered-processor-not-shut-down-after-successful-Shutdown|concurrent", "a provider Shutdown returned nil; p1 was shut down %d times", n1)
+			class := "|concurrent"
+			if cutShort {
+				// same situation, same key as in the sequences: the processors were asked to shut down
+				// by the call that ran out of time and may still be at it
+				class = "|after an earlier Shutdown was cut short by its context"
+			}
+			x.Fail("C15|registered-processor-not-shut-down-after-successful-Shutdown"+class, "a provider Shutdown returned nil; p1 was shut down %d times", n1)
 		}
 		if exp.afterSD > 0 {
 			x.Fail("C15|export-after-exporter-shutdown|concurrent", "exporter received %d span(s) after its Shutdown", exp.afterSD)
